@@ -290,3 +290,352 @@ def lift_point_arithmetic(ctx):
     for k in range(2):
         nk = geometer.Point(P[k]).normalized_array
         ctx.ensure("normalized_array:elementwise", ctx.conj([ctx.zero(na[k][i] - nk[i]) for i in range(3)]))
+
+
+# ------------------------------------------------------------------------------------------------ bounded: collection SHAPES
+def _shape_ops():
+    """(name, dim, kinds of the arguments, function).  Kinds: P point, L line, E plane, Q non-degenerate quadric, T transformation, S segment, G polygon (quadrilateral)"""
+    import geometer as g
+    from geometer import operators as go
+
+    ops = [
+        ("join(P,P).2d", 2, "PP", lambda a, b: g.join(a, b)), ("meet(L,L).2d", 2, "LL", lambda a, b: g.meet(a, b)),
+        ("join(P,P).3d", 3, "PP", lambda a, b: g.join(a, b)), ("join(P,P,P).3d", 3, "PPP", lambda a, b, c: g.join(a, b, c)),
+        ("meet(E,E).3d", 3, "EE", lambda a, b: g.meet(a, b)), ("meet(E,E,E).3d", 3, "EEE", lambda a, b, c: g.meet(a, b, c)),
+        ("meet(E,L).3d", 3, "EL", lambda a, b: g.meet(a, b)), ("join(L,P).3d", 3, "LP", lambda a, b: g.join(a, b)),
+        ("meet(L,L).3d.coplanar", 3, "LK", lambda a, b: g.meet(a, b)), ("join(L,L).3d.coplanar", 3, "LK", lambda a, b: g.join(a, b)),
+        ("L.is_coplanar(L).3d", 3, "LL", lambda a, b: a.is_coplanar(b)), ("L.is_coplanar(L).3d.coplanar", 3, "LK", lambda a, b: a.is_coplanar(b)),
+        ("L.contains(P).2d", 2, "LP", lambda a, b: a.contains(b)), ("E.contains(P).3d", 3, "EP", lambda a, b: a.contains(b)), ("L.contains(P).3d", 3, "LP", lambda a, b: a.contains(b)),
+        ("L.is_parallel(L).2d", 2, "LL", lambda a, b: a.is_parallel(b)), ("E.is_parallel(E).3d", 3, "EE", lambda a, b: a.is_parallel(b)),
+        ("L.parallel(P).2d", 2, "LP", lambda a, b: a.parallel(b)), ("E.parallel(P).3d", 3, "EP", lambda a, b: a.parallel(b)), ("L.parallel(P).3d", 3, "LP", lambda a, b: a.parallel(b)),
+        ("L.perpendicular(P).2d", 2, "LP", lambda a, b: a.perpendicular(b)), ("E.perpendicular(P).3d", 3, "EP", lambda a, b: a.perpendicular(b)),
+        ("L.perpendicular(P).3d", 3, "LP", lambda a, b: a.perpendicular(b)),
+        ("L.project(P).2d", 2, "LP", lambda a, b: a.project(b)), ("E.project(P).3d", 3, "EP", lambda a, b: a.project(b)), ("L.project(P).3d", 3, "LP", lambda a, b: a.project(b)),
+        ("L.mirror(P).2d", 2, "LP", lambda a, b: a.mirror(b)), ("E.mirror(P).3d", 3, "EP", lambda a, b: a.mirror(b)),
+        ("L.base_point.2d", 2, "L", lambda a: a.base_point), ("L.direction.2d", 2, "L", lambda a: a.direction), ("L.base_point.3d", 3, "L", lambda a: a.base_point),
+        ("L.direction.3d", 3, "L", lambda a: a.direction), ("L.general_point.2d", 2, "L", lambda a: a.general_point), ("E.general_point.3d", 3, "E", lambda a: a.general_point),
+        ("L.basis_matrix.2d", 2, "L", lambda a: a.basis_matrix), ("E.basis_matrix.3d", 3, "E", lambda a: a.basis_matrix), ("L.basis_matrix.3d", 3, "L", lambda a: a.basis_matrix),
+        ("P.normalized_array.3d", 3, "P", lambda a: a.normalized_array), ("P.isinf.2d", 2, "P", lambda a: a.isinf), ("P+P.2d", 2, "PP", lambda a, b: a + b), ("P-P.3d", 3, "PP", lambda a, b: a - b),
+        ("dist(P,P).2d", 2, "PP", go.dist), ("dist(P,P).3d", 3, "PP", go.dist), ("dist(L,P).2d", 2, "LP", go.dist), ("dist(P,L).3d", 3, "PL", go.dist), ("dist(E,P).3d", 3, "EP", go.dist),
+        ("dist(L,L).3d", 3, "LL", go.dist), ("angle(L,L).2d", 2, "LL", go.angle), ("angle(P,P,P).2d", 2, "PPP", go.angle), ("angle(P,P,P).3d", 3, "PPP", go.angle),
+        ("angle(E,E).3d", 3, "EE", go.angle), ("is_collinear(P,P,P).2d", 2, "PPP", go.is_collinear), ("is_collinear(P,P,P,P).2d", 2, "PPPP", go.is_collinear),
+        ("is_coplanar(P,P,P,P,P).3d", 3, "PPPPP", go.is_coplanar), ("is_perpendicular(L,L).2d", 2, "LL", go.is_perpendicular), ("is_perpendicular(E,E).3d", 3, "EE", go.is_perpendicular),
+        ("is_cocircular.2d", 2, "PPPP", go.is_cocircular), ("crossratio(L,L,L,L,P).2d", 2, "PPPPP", lambda a, b, c, d, o: go.crossratio(a.join(o), b.join(o), c.join(o), d.join(o))),
+        ("harmonic_set.2d", 2, "PP", lambda a, b: go.harmonic_set(a, b, (lambda c: g.PointCollection(c) if c.ndim > 1 else g.Point(c))(2 * a.array + 3 * b.array))), ("angle_bisectors.2d", 2, "LL", go.angle_bisectors),
+        ("Q.contains(P).2d", 2, "QP", lambda q, p: q.contains(p)), ("Q.tangent(P).2d", 2, "QP", lambda q, p: q.tangent(p)) if False else ("Q.contains(P).3d", 3, "QP", lambda q, p: q.contains(p)),
+        ("Q.is_tangent(L).2d", 2, "QL", lambda q, l: q.is_tangent(l)), ("Q.dual.3d", 3, "Q", lambda q: q.dual), ("Q.is_degenerate.2d", 2, "Q", lambda q: q.is_degenerate),
+        ("Q.intersect(L).2d", 2, "QL", lambda q, l: q.intersect(l)), ("Q.intersect(L).3d", 3, "QL", lambda q, l: q.intersect(l)),
+        ("T*P.2d", 2, "TP", lambda t, p: t * p), ("T*L.2d", 2, "TL", lambda t, l: t * l), ("T*E.3d", 3, "TE", lambda t, e: t * e), ("T*L.3d", 3, "TL", lambda t, l: t * l), ("T*Q.2d", 2, "TQ", lambda t, q: t * q),
+        ("T.inverse.3d", 3, "T", lambda t: t.inverse()), ("T*T.2d", 2, "TT", lambda s, t: s * t), ("T**2.2d", 2, "T", lambda t: t ** 2), ("T**0.2d", 2, "T", lambda t: t ** 0), ("T**-1.3d", 3, "T", lambda t: t ** -1),
+        ("S.contains(P).2d", 2, "SP", lambda s, p: s.contains(p)), ("S.length.3d", 3, "S", lambda s: s.length), ("S.midpoint.2d", 2, "S", lambda s: s.midpoint), ("S.intersect(L).2d", 2, "SL", lambda s, l: s.intersect(l)),
+        ("S.intersect(S).2d", 2, "SS", lambda s, t: s.intersect(t)),
+        ("G.area.2d", 2, "G", lambda p: p.area), ("G.area.3d", 3, "G", lambda p: p.area), ("G.contains(P).2d", 2, "GP", lambda p, x: p.contains(x)),
+        ("G.contains(P).3d", 3, "GP", lambda p, x: p.contains(x)), ("G.angles.2d", 2, "G", lambda p: p.angles), ("G.intersect(L).3d", 3, "GL", lambda p, l: p.intersect(l)),
+    ]
+    return ops
+
+
+def _shape_make(kind, dim, rnd):
+    """array of ONE object of the kind, integer coordinates in general position"""
+    n = dim + 1
+    ri = lambda lo=-4, hi=4: rnd.randint(lo, hi)
+    if kind == "P":
+        return np.array([ri() for _ in range(dim)] + [rnd.choice([1, 1, 2, -1])], dtype=float)
+    if kind == "E" or (kind == "L" and dim == 2):
+        while True:
+            v = np.array([ri() for _ in range(n)], dtype=float)
+            if np.any(v[:-1]):
+                return v
+    if kind == "L":
+        import geometer as g
+        while True:
+            a, b = np.array([ri() for _ in range(3)] + [1.0]), np.array([ri() for _ in range(3)] + [1.0])
+            if np.any(a != b):
+                return g.Line(g.Point(a), g.Point(b)).array
+    if kind == "Q":
+        while True:
+            m = np.array([[ri(-3, 3) for _ in range(n)] for _ in range(n)], dtype=float)
+            m = m + m.T + np.diag([3.0] * dim + [-7.0])
+            if abs(np.linalg.det(m)) > 1:
+                return m
+    if kind == "T":
+        while True:
+            m = np.array([[ri(-2, 2) for _ in range(n)] for _ in range(n)], dtype=float) + 3 * np.eye(n)
+            if abs(np.linalg.det(m)) > 1:
+                return m
+    if kind == "S":
+        while True:
+            a, b = [ri() for _ in range(dim)] + [1.0], [ri() for _ in range(dim)] + [1.0]
+            if a != b:
+                return np.array([a, b], dtype=float)
+    if kind == "G":
+        # convex quadrilateral in the plane, moved into 3-space by a fixed affine map per object
+        c = np.array([ri(-2, 2), ri(-2, 2)], dtype=float)
+        pts = [c + np.array(v, dtype=float) for v in ((0, 0), (3 + ri(0, 2), 0), (3 + ri(0, 2), 2 + ri(0, 2)), (0, 3))]
+        if dim == 2:
+            return np.array([list(p) + [1.0] for p in pts])
+        u, w, o = np.array([1.0, 0, ri(-1, 1)]), np.array([0, 1.0, ri(-1, 1)]), np.array([ri(-2, 2), ri(-2, 2), ri(-2, 2)], dtype=float)
+        return np.array([list(o + p[0] * u + p[1] * w) + [1.0] for p in pts])
+    raise ValueError(kind)
+
+
+def _shape_make_all(kinds, dim, rnd):
+    """one object per argument; kind K = a 3D line coplanar with (and different from) the preceding line argument"""
+    if kinds == "GP" and dim == 3:
+        # the query point lies in the plane of the polygon (inside or outside): random points are never coplanar
+        G = _shape_make("G", dim, rnd)
+        wts = np.array([rnd.randint(-1, 3) for _ in range(4)], dtype=float)
+        if wts.sum() == 0:
+            wts[0] += 1
+        P = (wts / wts.sum()) @ G
+        return [G, P]
+    if "K" not in kinds:
+        return [_shape_make(k, dim, rnd) for k in kinds]
+    import geometer as g
+    while True:
+        a, b, c = (np.array([rnd.randint(-4, 4) for _ in range(3)] + [1.0]) for _ in range(3))
+        if np.linalg.matrix_rank(np.array([a, b, c])) == 3:
+            break
+    out = []
+    for k in kinds:
+        if k == "L":
+            out.append(g.Line(g.Point(a), g.Point(b)).array)
+        elif k == "K":
+            out.append(g.Line(g.Point(a * rnd.choice([1, 2, -1])), g.Point(c)).array)
+        else:
+            out.append(_shape_make(k, dim, rnd))
+    return out
+
+
+def _shape_wrap(kind, dim, arr, coll):
+    if kind == "K":
+        kind = "L"
+    import geometer as g
+    from geometer.curve import Quadric, QuadricCollection, Conic
+    from geometer.shapes import Segment, SegmentCollection, Polygon, PolygonCollection
+    from geometer.transformation import Transformation, TransformationCollection
+
+    if kind == "P":
+        return g.PointCollection(arr) if coll else g.Point(arr)
+    if kind == "E":
+        return g.PlaneCollection(arr) if coll else g.Plane(arr)
+    if kind == "L":
+        return g.LineCollection(arr) if coll else g.Line(arr)
+    if kind == "Q":
+        return QuadricCollection(arr) if coll else (Conic(arr) if dim == 2 else Quadric(arr))
+    if kind == "T":
+        return TransformationCollection(arr) if coll else Transformation(arr)
+    if kind == "S":
+        return SegmentCollection(arr) if coll else Segment(arr)
+    if kind == "G":
+        return PolygonCollection(arr) if coll else Polygon(arr)
+
+
+def _shape_same(a, b):
+    from geometer.base import Tensor, ProjectiveTensor
+
+    if isinstance(a, (list, tuple)) or isinstance(b, (list, tuple)):
+        if not isinstance(a, (list, tuple)) or not isinstance(b, (list, tuple)) or len(a) != len(b):
+            return False
+        # point sets (intersections, bisectors) are compared as sets
+        used = set()
+        for x in a:
+            hit = next((j for j, y in enumerate(b) if j not in used and _shape_same(x, y)), None)
+            if hit is None:
+                return False
+            used.add(hit)
+        return True
+    if isinstance(a, Tensor) or isinstance(b, Tensor):
+        if not (isinstance(a, Tensor) and isinstance(b, Tensor)) or a.shape != b.shape or a.tensor_shape != b.tensor_shape:
+            return False
+        if isinstance(a, ProjectiveTensor):
+            return bool(a == b) and np.abs(a.array).max() > 0 or (np.abs(a.array).max() == 0 and np.abs(b.array).max() == 0)
+        return bool(np.allclose(a.array, b.array, atol=1e-7, equal_nan=True))
+    a, b = np.asarray(a), np.asarray(b)
+    if a.shape != b.shape:
+        return False
+    if a.dtype == bool or b.dtype == bool:
+        return bool(np.all(a == b))
+    return bool(np.allclose(a, b, atol=1e-7, rtol=1e-6, equal_nan=True))
+
+
+_FLAT_OPS = ("S.intersect(L).2d", "S.intersect(S).2d", "G.intersect(L).3d")  # return one flat list of points over all positions
+
+
+def _flatten_points(r):
+    out = []
+    for x in r:
+        if getattr(x, "free_indices", 0) > 0:
+            out += list(_flatten_points(list(x)))
+        else:
+            out.append(x)
+    return out
+
+
+def _shape_pick(r, idx, nshape):
+    """element idx of a collection result"""
+    from geometer.base import Tensor
+
+    if isinstance(r, (list, tuple)):
+        return [_shape_pick(x, idx, nshape) for x in r]
+    if isinstance(r, Tensor):
+        return r[idx]
+    r = np.asarray(r)
+    return r[idx]
+
+
+@case("C04", "lift.shapes.lattice", [], kind="bounded",
+      functions=["geometer.point._join_meet_duality", "geometer.point.SubspaceTensor", "geometer.point.LineTensor", "geometer.point.PlaneTensor", "geometer.operators", "geometer.curve.QuadricTensor",
+                 "geometer.transformation.TransformationTensor", "geometer.shapes.SegmentTensor", "geometer.shapes.PolygonTensor"],
+      bound="98 public operations x collection shapes (1,), (3,), (2,2), (3,1), (1,2) x argument mixes (all collections; one argument single, broadcasting) x every position; "
+            "one random general-position integer configuration per position (seeded)")
+def lift_shapes_lattice(ctx):
+    import random as _random
+    import warnings
+
+    warnings.simplefilter("ignore")
+    np.seterr(all="ignore")
+    shapes = [(1,), (3,), (2, 2), (3, 1), (1, 2)]
+    for name, dim, kinds, fn in _shape_ops():
+        for shape in shapes:
+            rnd = _random.Random(hash((name, shape)) % 100003 if False else (len(name) * 131 + sum(shape) * 17 + len(shape)))
+            # per position and argument one object
+            elems = {idx: _shape_make_all(kinds, dim, rnd) for idx in np.ndindex(*shape)}
+            # single-object oracle per position
+            oracle, skip = {}, False
+            for idx, arrs in elems.items():
+                try:
+                    oracle[idx] = fn(*[_shape_wrap(k, dim, a, False) for k, a in zip(kinds, arrs)])
+                except Exception:
+                    skip = True  # the configuration is degenerate for the single objects: not a statement about collections
+                    break
+            if skip:
+                continue
+            mixes = [tuple(True for _ in kinds)] + ([tuple(j != s for j in range(len(kinds))) for s in range(len(kinds))] if len(kinds) > 1 else [])
+            for mix in mixes:
+                args = []
+                for j, (k, c) in enumerate(zip(kinds, mix)):
+                    if c:
+                        a = np.empty(shape + elems[next(iter(elems))][j].shape)
+                        for idx in elems:
+                            a[idx] = elems[idx][j]
+                        args.append(_shape_wrap(k, dim, a, True))
+                    else:
+                        args.append(_shape_wrap(k, dim, elems[next(iter(elems))][j], False))
+                w = dict(operation=name, shape=shape, collection_arguments=[bool(c) for c in mix])
+                # single-object results per position for this mix; a degenerate configuration for the single objects is not a statement about collections
+                wants, degenerate = {}, False
+                for idx in elems:
+                    if all(mix):
+                        wants[idx] = oracle[idx]
+                        continue
+                    try:
+                        wants[idx] = fn(*[_shape_wrap(k, dim, elems[idx][j] if c else elems[next(iter(elems))][j], False) for j, (k, c) in enumerate(zip(kinds, mix))])
+                    except Exception:
+                        degenerate = True
+                        break
+                if degenerate or any(_has_nan(v) for v in wants.values()):
+                    continue
+                clause, excuse = "lift:%s" % name, None
+                if kinds[0] == "T" and len(kinds) == 2 and kinds[1] != "T" and mix == (True, False):
+                    clause, excuse = "lift:%s:collection-of-transformations-x-single-object" % name, ("KF-C04-1", None)
+                if name == "G.contains(P).3d" and mix == (True, False):
+                    clause, excuse = "lift:%s:polygon-collection-x-single-point" % name, ("KF-C04-2", None)
+                try:
+                    res = fn(*args)
+                except Exception as e:
+                    ctx.ensure(clause, False, witness=dict(w, exception="%s: %s" % (type(e).__name__, str(e)[:120])), excuse=excuse)
+                    continue
+                ok = True
+                if name in _FLAT_OPS:
+                    want_all = [x for idx in elems for x in wants[idx]]
+                    try:
+                        got_all = _flatten_points(res)
+                        ok = _shape_same(got_all, want_all)
+                    except Exception as e:
+                        ok = False
+                        w["exception"] = "%s: %s" % (type(e).__name__, str(e)[:120])
+                    if not ok:
+                        w["got"], w["want"] = str(res)[:200], str(want_all)[:200]
+                    ctx.ensure(clause, ok, witness=w, excuse=excuse)
+                    continue
+                degenerate_value = {"angle(L,L).2d": 0.0, "crossratio(L,L,L,L,P).2d": 1.0}.get(name)
+                coincident = []
+                for idx in elems:
+                    want = wants[idx]
+                    try:
+                        got = _shape_pick(res, idx, len(shape))
+                        if degenerate_value is not None and np.ndim(got) == 0 and np.isnan(got) and np.ndim(want) == 0 and abs(want - degenerate_value) < 1e-12:
+                            # KF-C04-3: only the positions whose first two arguments coincide (parallel lines) are routed to the excused clause
+                            coincident.append(idx)
+                            continue
+                        if not _shape_same(got, want):
+                            ok = False
+                            w["position"], w["got"], w["want"] = idx, str(got)[:160], str(want)[:160]
+                            break
+                    except Exception as e:
+                        ok = False
+                        w["position"], w["exception"] = idx, "%s: %s" % (type(e).__name__, str(e)[:120])
+                        break
+                ctx.ensure(clause, ok, witness=w, excuse=excuse)
+                if coincident:
+                    ctx.ensure("lift:%s:positions-with-coincident-first-arguments" % name, False, witness=dict(w, positions=coincident, got="nan", want=degenerate_value),
+                               excuse=("KF-C04-3", None))
+
+
+@case("C04", "lift.collinearity.designed", [], kind="bounded", also=("C10",), share=True, functions=["geometer.operators.is_coplanar"],
+      bound="is_collinear of 4 points (2D) / is_coplanar of 5 points (3D) on collections whose positions are DESIGNED (random points are never collinear): first dim+1 arguments "
+            "independent / dependent with a later one off / all dependent / coincident first arguments; every order of 4 positions, shapes (4,), (2,2), (4,1); exact integer rank as oracle")
+def lift_collinearity_designed(ctx):
+    import geometer as g
+    from geometer import operators as go
+
+    def rank_deficient(rows):
+        n = len(rows[0])
+        def det(m):
+            if len(m) == 1:
+                return m[0][0]
+            return sum((-1) ** j * m[0][j] * det([r[:j] + r[j + 1:] for r in m[1:]]) for j in range(len(m)))
+        return all(det([list(r) for r in c]) == 0 for c in itertools.combinations(rows, n))
+
+    cfg2 = [[(0, 0), (1, 1), (2, 0), (3, 3)], [(0, 0), (1, 1), (2, 2), (3, 0)], [(0, 0), (1, 1), (2, 2), (5, 5)], [(1, 0), (1, 0), (2, 2), (3, 0)], [(1, 0), (1, 0), (2, 2), (3, 4)],
+            [(2, 1), (4, 2), (0, 0), (0, 1)]]
+    cfg3 = [[(0, 0, 0), (1, 0, 0), (0, 1, 0), (0, 0, 1), (1, 1, 1)], [(0, 0, 0), (1, 0, 0), (0, 1, 0), (1, 1, 0), (0, 0, 1)], [(0, 0, 0), (1, 0, 0), (0, 1, 0), (1, 1, 0), (2, 3, 0)],
+            [(0, 0, 0), (1, 0, 0), (2, 0, 0), (0, 1, 0), (0, 0, 1)], [(1, 1, 1), (1, 1, 1), (2, 0, 0), (0, 1, 0), (0, 0, 5)], [(0, 0, 0), (1, 0, 0), (2, 0, 0), (3, 0, 0), (0, 1, 1)]]
+    for dim, cfgs, fn in ((2, cfg2, go.is_collinear), (3, cfg3, go.is_coplanar)):
+        nargs = dim + 2
+        for order in itertools.permutations(range(len(cfgs)), 4):
+            if order[0] > order[-1] and len(set(order)) == 4 and sum(order) % 3:
+                continue  # thin the 360 orders
+            sel = [cfgs[i] for i in order]
+            want = np.array([rank_deficient([list(p) + [1] for p in c]) for c in sel])
+            for shape in ((4,), (2, 2), (4, 1)):
+                args = [g.PointCollection(np.array([list(c[j]) + [1] for c in sel], dtype=float).reshape(shape + (dim + 1,))) for j in range(nargs)]
+                w = dict(dim=dim, configurations=order, shape=shape)
+                try:
+                    got = np.asarray(fn(*args))
+                    ok = got.shape == shape and bool(np.all(got.reshape(-1) == want))
+                    w["got"], w["want"] = got.reshape(-1).tolist(), want.tolist()
+                except Exception as e:
+                    ok = False
+                    w["exception"] = "%s: %s" % (type(e).__name__, str(e)[:100])
+                ctx.ensure("is_collinear/is_coplanar:element-by-element==exact-rank-test", ok, witness=w)
+            # a single first argument broadcasting against collections
+            first = g.Point(*sel[0][0])
+            rest = [g.PointCollection(np.array([list(c[j]) + [1] for c in sel], dtype=float)) for j in range(1, nargs)]
+            want1 = np.array([rank_deficient([list(sel[0][0]) + [1]] + [list(p) + [1] for p in c[1:]]) for c in sel])
+            try:
+                got = np.asarray(fn(first, *rest))
+                ok = bool(np.all(got == want1))
+            except Exception as e:
+                ok = False
+            ctx.ensure("is_collinear/is_coplanar:single-first-argument-broadcasts", ok, witness=dict(dim=dim, configurations=order))
+
+
+def _has_nan(v):
+    from geometer.base import Tensor
+
+    if isinstance(v, (list, tuple)):
+        return any(_has_nan(x) for x in v)
+    a = v.array if isinstance(v, Tensor) else np.asarray(v)
+    return a.dtype.kind in "fc" and bool(np.any(np.isnan(a)))
